@@ -49,6 +49,6 @@ scen.append(S("mem-trim-sleeps-over-soft-limit",2,[st("Start",g=1,lo=1,hi=2),st(
   st("Start",g=3,lo=5,hi=6,announce=True,nowait=False),st("LoadBegin",g=3),st("Yield"),
   st("ReleaseTrim"),st("Yield"),st("LoadEnd",g=3,ok=True),st("Post",g=3),st("GetEnd",g=3)]))
 open('/verif/checks/C23_scenarios.json','w').write(json.dumps(scen,indent=None,separators=(",",":")).replace('],[{"a":"Scenario"','],\n[{"a":"Scenario"'))
-with open('/tmp/c23w/scen.ndjson','w') as f:
+with open('/tmp/c23_scenarios.ndjson','w') as f:
     for s in scen: f.write(json.dumps(s)+"\n")
 print(len(scen))
